@@ -115,6 +115,7 @@ Find(st, m, f, args) ==
 (* ---- expected observations ---- *)
 Obs0 == [skip |-> 0, acc |-> 1, ret |-> 0, thr |-> "", thrv |-> 0,
          reps |-> <<>>, repset |-> FALSE,   \* repset: compare reports as a set (order unspecified)
+         anyreps |-> FALSE,                 \* anyreps: which reports this op sends is not specified (only their severity is)
          oks |-> <<>>, trs |-> <<>>, trck |-> TRUE, \* trck: trace records are specified for this op
          sr |-> <<>>, probe |-> <<>>, hd |-> 0,   \* hd: the expectation that handled the call
          q |-> <<-1, -1>>,                        \* result of an explicit query op
@@ -396,8 +397,14 @@ DestroyObjStep(st, o) ==
            THEN [st |-> [st EXCEPT !.obj[o].alive = FALSE],
                  obs |-> [Obs0 EXCEPT !.reps = <<[Rp0 EXCEPT !.kind = "unexpected_death"]>>]]
            ELSE LET r == NotifyAll(st, ks, <<>>)
-                IN  [st |-> [r.st EXCEPT !.obj[o] = [alive |-> FALSE, mons |-> <<>>]],
-                     obs |-> [Obs0 EXCEPT !.reps = r.reps]]
+                    \* the order in which several requirements of one object are notified is not specified; it only
+                    \* matters when two of them share a sequence: then what follows is compared for safety only
+                    shared == \E i, j \in 1..Len(ks) : i # j /\ Range(st.mon[ks[i]].qs) \cap Range(st.mon[ks[j]].qs) # {}
+                IN  IF shared
+                    THEN [st |-> [r.st EXCEPT !.obj[o] = [alive |-> FALSE, mons |-> <<>>], !.unspec = TRUE],
+                          obs |-> [Obs0 EXCEPT !.reps = <<>>, !.anyreps = TRUE]]
+                    ELSE [st |-> [r.st EXCEPT !.obj[o] = [alive |-> FALSE, mons |-> <<>>]],
+                          obs |-> [Obs0 EXCEPT !.reps = r.reps]]
 
 NewObjFromStep(st, o, o2) ==      \* copy or move construction of o2 from o: the requirement is not inherited
   IF ~(o \in Objs /\ o2 \in Objs) THEN Skip(st) ELSE
